@@ -85,6 +85,24 @@ pub fn gen_hungarian(r: &mut Rng, tier: &str) -> Vec<Case> {
         .collect()
 }
 
+/// small-scope exhaustive stream of the matching routine: every n×n matrix (n = 1..3) with weights in
+/// 0..=2 and every dummy / mandatory mask; n = 4 with weights in 0..=2 sampled evenly
+pub fn gen_hungarian_exhaustive(r: &mut Rng, tier: &str) -> Vec<Case> {
+    let mut cases = vec![];
+    for (n, bq, bt) in [(1usize, 100u64, 1u64 << 40), (2, 600, 1 << 40), (3, 2500, 160000), (4, 800, 40000)] {
+        let budget = if tier == "thorough" { bt } else { bq };
+        let count = gen::small_scope_matrix_count(n);
+        let stride = std::cmp::max(1, count / budget);
+        let mut idx = r.below(stride);
+        while idx < count {
+            let m = gen::small_scope_matrix(n, idx);
+            cases.push(Case { stream: "hungarian-exhaustive", data: json!({"m": m.to_json(), "layout": if idx % 4 == 1 { "f" } else { "c" }, "huge": false}) });
+            idx += stride;
+        }
+    }
+    cases
+}
+
 pub fn run_hungarian(data: &Value) -> Vec<Line> {
     if let Some(n) = data["diag"].as_u64() {
         let n = n as usize;
@@ -219,6 +237,30 @@ pub fn gen_node(r: &mut Rng, tier: &str, rooms: u8, nondyadic: bool, name: &'sta
             Case { stream: name, data: json!({"inst": inst.to_json(), "max_nodes": if big { 120 } else { 60 }}) }
         })
         .collect()
+}
+
+/// small-scope exhaustive node stream: the instances of `gen::small_scope_instance` for 1–2 courses
+/// and 1–3 participants, every `stride`-th index of each shape starting at a seed-dependent offset
+/// (stride 1 = the whole shape); each instance's search tree is explored node by node as in `node`
+pub fn gen_node_exhaustive(r: &mut Rng, tier: &str) -> Vec<Case> {
+    let mut cases = vec![];
+    // (courses, participants, budget quick, budget thorough): the thorough tier covers every shape up to
+    // two courses and two participants COMPLETELY (stride 1) and samples the larger ones evenly
+    for (nc, np, bq, bt) in [(1usize, 1usize, 400u64, 1u64 << 40), (1, 2, 600, 1 << 40), (1, 3, 800, 1 << 40), (2, 1, 800, 1 << 40),
+                             (2, 2, 1500, 1 << 40), (2, 3, 1500, 60000), (3, 2, 1000, 30000), (3, 3, 600, 20000)] {
+        let budget = if tier == "thorough" { bt } else { bq };
+        let count = gen::small_scope_count(nc, np);
+        let stride = std::cmp::max(1, count / budget);
+        let mut idx = r.below(stride);
+        while idx < count {
+            if let Some(inst) = gen::small_scope_instance(nc, np, idx) {
+                cases.push(Case { stream: "node-exhaustive",
+                                  data: json!({"inst": inst.to_json(), "max_nodes": 40, "scope": [nc, np, idx, stride, count]}) });
+            }
+            idx += stride;
+        }
+    }
+    cases
 }
 
 pub fn dump_to_text(d: &caobab_api::NodeDump) -> String {
